@@ -193,6 +193,87 @@ def identity_init(rep, F, tag):
     R.guard(body)
 
 
+def _delta_elementwise(F, f):
+    """what rectify_equilibration leaves in delta[i], as a rational function of e[i] and of M = mean(e): the in-place vector calls on delta (arg2) are
+    applied in program order (copy_from(e), recip, scale(x), scalarop / scalarop_from with a closure, set / fill); None if a call on delta is not understood"""
+    from engine.linform import RatF, P_atom, P_const
+    from .c14 import _txt_eval, _NoDerivative
+    E, Mn = RatF(P_atom('e')), RatF(P_atom('M'))
+    leaves = [l for l in Walker(f, cut_loops=True, local_stores=True).leaves() if l[1][0] != 'diverge']
+    if len(leaves) != 1:
+        return None
+    val, ret, ev, tr = leaves[0]
+    scal_defs = {}
+    for e in ev:
+        if e[0] == 'assign' and e[1] and e[2] is not None:
+            scal_defs['var:' + e[1]] = str(e[2])
+
+    def scal(t, depth=0):
+        t = t.strip()
+        if t == 'mean(arg3)':
+            return Mn
+        if t in scal_defs and depth < 4:
+            return scal(scal_defs[t], depth + 1)
+        return _txt_eval(t, {'mean(arg3)': Mn}, {})
+
+    def vec(t, cur):
+        t = t.strip()
+        if t == 'arg2':
+            return cur
+        if t == 'arg3':
+            return E
+        if '(' not in t:
+            raise _NoDerivative(t)
+        nm = t[:t.index('(')]
+        a = split_args(t)
+        if nm in ('copy_from', 'clone_from_slice', 'copy_from_slice') and len(a) == 2:
+            vec(a[0], cur)
+            return vec(a[1], cur)
+        if nm == 'recip' and len(a) == 1:
+            return vec(a[0], cur).pow(-1)
+        if nm == 'scale' and len(a) == 2:
+            return vec(a[0], cur) * scal(a[1])
+        if nm in ('set', 'fill') and len(a) == 2:
+            vec(a[0], cur)
+            return scal(a[1])
+        if nm == 'hadamard' and len(a) == 2:
+            return vec(a[0], cur) * vec(a[1], cur)
+        if nm in ('scalarop', 'scalarop_from') and len(a) >= 2:
+            src = vec(a[2], cur) if nm == 'scalarop_from' else vec(a[0], cur)
+            cl = F.closures_of.get(f.key, [])
+            if len(cl) != 1:
+                raise _NoDerivative('closure')
+            body = canon(cl[0].sym_local(0))
+            env = {'arg2': src}
+            # captured scalars: resolved through their definition in the parent
+            import re as _re
+            for cap in set(_re.findall(r'arg1\._ref__(\w+)', body)) | set(_re.findall(r'arg1\.(\w+)', body)):
+                for key in ('arg1._ref__%s' % cap, 'arg1.%s' % cap):
+                    if ('var:' + cap) in scal_defs:
+                        env[key] = scal('var:' + cap)
+            return _txt_eval(body, env, {})
+        raise _NoDerivative(t)
+    cur = None
+    try:
+        for e in ev:
+            if e[0] != 'call':
+                continue
+            t = str(e[2])
+            # outermost calls on delta only: a nested chain is evaluated when its outermost call is seen
+            inner = t
+            while '(' in inner and split_args(inner):
+                inner = split_args(inner)[0]
+            if inner.strip() != 'arg2' or e[1] in ('deref', 'deref_mut', 'index', 'index_mut', 'len'):
+                continue
+            # skip calls that are arguments of a later, enclosing call on delta
+            if any(o[0] == 'call' and o is not e and str(o[2]) != t and ('(%s,' % t in str(o[2]) or '(%s)' % t in str(o[2])) for o in ev):
+                continue
+            cur = vec(t, cur)
+    except (_NoDerivative, ValueError, KeyError, AttributeError):
+        return None
+    return cur
+
+
 def rectification(rep, F, tag):
     R = rep.rule('C10.R4', 'rectify_equilibration: uniform scaling inside every non-separable cone (exhaustive over impl Cone), composite wiring, re-application before the inverses')
 
@@ -209,6 +290,12 @@ def rectification(rep, F, tag):
             calls = [e[2] for l in leaves for e in l[2] if e[0] == 'call']
             rets = set(str(l[1]) for l in leaves)
             uniform = any(k.startswith('scale(recip(copy_from(arg2, arg3)), mean(arg3))') for k in calls)
+            if not uniform:
+                # any other arrangement of the same element-wise function: delta[i] = mean(e) / e[i]
+                from engine.linform import RatF, P_atom, P_const
+                dv = _delta_elementwise(F, f)
+                if dv is not None:
+                    uniform = (dv + (RatF(P_atom('M')) * RatF(P_atom('e')).pow(-1)) * RatF(P_const(-1))).is_zero()
             r0 = canon(f.sym_local(0))
             if K in SCALAR_CONES:
                 ident = any(k in ('set(arg2, one())', 'fill(arg2, one())') for k in calls)
